@@ -14,6 +14,7 @@ from typing import Any
 from .. import e2e, gens
 from ..common import Hang, Rng, hx, unhx, watchdog
 from ..runner import Check
+from ..translate import enum_sites
 from ..translate import unicode as uni
 
 KIND_NAMES = ["base", "pydantic", "enum"]
@@ -292,6 +293,25 @@ def campaign_valid(ck: Check, names: list[str], label: str, cfgs: list[Cfg], cha
     camp.wall_s = time.time() - t0
 
 
+def _enum_reserved(r: str) -> bool:
+    from . import enum_callers
+
+    return enum_callers.enum_reserved(r)
+
+
+_RESOLVER_EXCLUDES: list[str] | None = None
+
+
+def _mro_reserved_for_call(excl: list[str]) -> bool:
+    """`mro` is reserved for one call of the enum resolver when the caller's excludes hold it or the resolver adds it by itself
+    (read off the source, Gen/EnumSites); a caller that relies on neither is a matter of the CALL SITE (C09's enum_call_sites_reviewed
+    and the enum documents at every caller, enum_callers.campaign_names), not of this call"""
+    global _RESOLVER_EXCLUDES
+    if _RESOLVER_EXCLUDES is None:
+        _RESOLVER_EXCLUDES = enum_sites.resolver_facts()["excludes"]
+    return "mro" in excl or "mro" in _RESOLVER_EXCLUDES
+
+
 def oracle_name(ck: Check, camp, kind: str, cfg: Cfg, inp: dict, r: str, excl: list[str], uc: bool) -> None:
     """C07's statement about one result of the real get_valid_name (function level)."""
     base = {"oracle": "get_valid_name", "kind": kind, "prefix_ok": cfg.prefix_ok()}
@@ -299,8 +319,9 @@ def oracle_name(ck: Check, camp, kind: str, cfg: Cfg, inp: dict, r: str, excl: l
         ck.fail({**base, "mechanism": "illegal_identifier"}, inp, f"result {r!r} is not a legal non-keyword identifier")
     elif r in excl:
         ck.fail({**base, "mechanism": "not_unique"}, inp, f"result {r!r} is one of the excluded names")
-    elif kind == "enum" and r == "mro":
-        ck.fail({**base, "mechanism": "reserved"}, inp, "enum member named mro")
+    elif kind == "enum" and ((r == "mro" and _mro_reserved_for_call(excl)) or (r != "mro" and cfg.prefix_ok() and _enum_reserved(r))):
+        ck.fail({**base, "mechanism": "reserved"}, inp,
+                f"enum member name {r!r} is reserved by enum.Enum (attribute such as mro, _sunder_, __dunder__ or __private name)")
     elif kind == "pydantic" and not uc and not cfg.cap:
         from pydantic import BaseModel
 
@@ -1492,6 +1513,11 @@ def known_findings(ck: Check) -> None:
         cfg = Cfg(**{k: (tuple(map(tuple, v)) if k == "aliases" else v) for k, v in w.get("cfg", {}).items()})
         if w["level"] == "function":
             still = real_valid(w["kind"], cfg, w["name"], w.get("excludes"), False, False, timeout=1.0) == "fuel"
+        elif w["level"] == "enum_e2e":
+            from . import enum_callers
+
+            enum_callers.names_case(probe, camp, w["enum_values"], cfg, w["model"], w["position"])
+            still = bool(probe.failures)
         elif w["level"] == "typeddict_inheritance":
             td_case(probe, camp, w["td_doc"], cfg, w.get("opts", {}), w.get("target", "3.12"), shrink=False)
             still = bool(probe.failures)
@@ -1505,6 +1531,21 @@ def known_findings(ck: Check) -> None:
 def search_names(ck: Check) -> None:
     """Targeted search when a proof or a correspondence broke: the inputs of every disagreement and the whole
     small scope (all names of length ≤ 2 over the 14-symbol alphabet, pairs of colliding names), end to end."""
+    from . import enum_callers
+
+    # names on which the ENUM resolver disagrees (and the option vectors of those calls) become enum values of complete documents,
+    # at every caller of the enum resolver
+    enum_dis = [d.input for d in ck.disagreements if isinstance(d.input, dict) and d.input.get("kind") == "enum" and "name" in d.input]
+    if enum_dis or any("enum" in t.lower() for t in ck.broken):
+        cfgs = []
+        for inp in enum_dis[:60]:
+            cf = inp.get("cfg_fields") or {}
+            cfg = Cfg(**{k: (tuple(map(tuple, v)) if k == "aliases" else v) for k, v in cf.items()})
+            if cfg not in cfgs:
+                cfgs.append(cfg)
+        enum_callers.search_names(ck, [inp["name"] for inp in enum_dis[:60]], cfgs[:6])
+        if ck.failures:
+            return
     camp = ck.campaign("search: disagreeing inputs and the small scope, end to end")
     seen = set()
     for d in ck.disagreements[:40]:
@@ -1564,6 +1605,7 @@ def hung(ck: Check) -> bool:
 def run(ck: Check) -> None:
     quick = ck.tier == "quick"
     ck.translate("Unicode", uni.generate())
+    ck.translate("EnumSites", enum_sites.generate())
     ck.prove()
     ck.assumptions += [
         "CPython's str.isidentifier / re \\w / str.isnumeric / keyword.iskeyword and hasattr(pydantic.BaseModel, ·) are the generated tables of Dcg/Gen/Unicode read by Dcg/Py/{Chars,Ident} (validated in this run, character by character and on whole strings)",
@@ -1574,10 +1616,16 @@ def run(ck: Check) -> None:
     ]
     rng = ck.rng.fork("names")
     ug = uni_groups()
-    names = list(dict.fromkeys(G_WORDS + G_CAMEL + [gen_name(rng, ug) for _ in range(2000 if quick else 12000)]))
+    from . import enum_callers
+
+    # (spellings that only SANITISE to a reserved name tie the generated table of the enum resolver's own excludes to its behaviour)
+    reserved_spellings = [s for t in ("mro", "class", "_missing_", "__init__", "name") for s in enum_callers.spellings(t)]
+    names = list(dict.fromkeys(G_WORDS + G_CAMEL + reserved_spellings + [gen_name(rng, ug) for _ in range(2000 if quick else 12000)]))
     campaign_chars(ck, 3000 if quick else 60000)
     campaign_ident(ck, names)
     campaign_helpers(ck, names[: 1500 if quick else 12000])
+    # (document level before function level: the first failing input of a run is the one written to the replay file)
+    enum_callers.campaign_names(ck, 250 if quick else 2500)
     campaign_valid(ck, names, "adversarial names x 3 resolvers x option vectors", CFGS[:6] if quick else CFGS)
     if quick and not hung(ck):
         campaign_valid(ck, names[:250], "remaining option vectors", CFGS[6:])
@@ -1604,7 +1652,11 @@ def replay(ck: Check, path: str) -> int:
     camp = ck.campaign("replay")
     cf = inp.get("cfg_fields") or {}
     cfg = Cfg(**{k: (tuple(map(tuple, v)) if k == "aliases" else v) for k, v in cf.items()})
-    if "td_doc" in inp:
+    if "enum_values" in inp:
+        from . import enum_callers
+
+        enum_callers.names_case(ck, camp, inp["enum_values"], cfg, inp["model"], inp["position"], inp.get("opts"))
+    elif "td_doc" in inp:
         td_case(ck, camp, inp["td_doc"], cfg, inp.get("opts", {}), inp.get("target", "3.12"), shrink=False)
     elif "model" in inp and "names" in inp:
         e2e_case(ck, camp, inp["names"], cfg, inp["model"], inp.get("required", False), inp.get("nested"), inp.get("bools"))
